@@ -440,6 +440,15 @@ fn gen_scn(rng: &mut Rng, pool: &[Pfx], rec: &mut Recorder) -> Scn {
     if rng.chance(1, 8) { let r = rng.below(nr as u64) as usize; let (g, b0) = (routers[r].peers[0].gr, routers[r].peers[0].base); routers[r].peers.push(PeerSpec { base: b0, alt: 1, gr: g }); rec.bump("world-two-headers-one-key-class"); }
     // the same neighbour monitored in two views (Adj-RIB-In and Adj-RIB-Out): two sources with one address and AS
     if rng.chance(1, 5) { let r = rng.below(nr as u64) as usize; let k = rng.below(routers[r].peers.len() as u64) as usize; if routers[r].peers[k].alt == 0 { let (g, b0) = (routers[r].peers[k].gr, routers[r].peers[k].base); routers[r].peers.push(PeerSpec { base: b0, alt: 2, gr: g }); rec.bump("world-one-neighbour-two-views"); } }
+    // one world in ten has a router with many monitored peers (9-33: around 8, 16, 32), so that the withdrawal of a lost
+    // connection names many ids at once and anything that batches, chunks or caps such a list is driven past its size
+    if rng.chance(1, 10) {
+        let r = rng.below(nr as u64) as usize;
+        let n = *rng.pick(&[9u32, 10, 12, 15, 16, 17, 20, 31, 33]);
+        let have = routers[r].peers.len() as u32;
+        for k in have..n { routers[r].peers.push(PeerSpec { base: 40 + 40 * r as u32 + k, alt: 0, gr: false }); }
+        rec.bump("world-router-with-many-peers");
+    }
     if routers.iter().any(|r| r.peers.iter().any(|p| p.gr)) { rec.bump("world-graceful-restart-peers"); }
     let focus: Vec<Pfx> = { let mut f: Vec<Pfx> = (0..rng.range(2, 5)).map(|_| *rng.pick(pool)).collect(); f.sort(); f.dedup(); f };
     // every prefix is used with one SAFI per case (C01's cross-SAFI finding is C01's business)
